@@ -115,14 +115,39 @@ def mon_c05(script, res):
             break
     # count events by position: we only know boundaries, so use the SupervisorStoppingEvent as the marker
     stopping_seen = False
+    n = len(script['procs'])
+    cur = [0] * n
+    gprio = [g['priority'] for g in script['groups']]
+    active = [bool(g.get('initial', 1)) for g in script['groups']]
+    in_rpc = False
     for e in res['trace']:
+        if e[0] == 'req':
+            in_rpc = True
+            if e[2] == 'addgroup' and 0 <= e[3] < len(active):
+                pending_add = e[3]
+        if e[0] == 'ans' and in_rpc:
+            if 'pending_add' in dir() and pending_add is not None and e[2] == 0:
+                active[pending_add] = True
+            pending_add = None
+        if e[0] == 'endacts':
+            in_rpc = False
         if e[0] == 'sup' and e[1] == 2:
             nsup2 += 1
             stopping_seen = True
         if e[0] == 'fork' and stopping_seen:
             return 'child %d forked after the shutdown request was observed' % e[2]
-        if e[0] == 'exitnow':
-            pass
+        if e[0] == 'state' and 0 <= e[1] < n:
+            i = e[1]
+            if stopping_seen and e[3] == 40:
+                # a process is told to stop during shutdown: every group that comes before its group in the
+                # stopping order (strictly higher priority number) must be entirely in stopped states
+                gi = script['procs'][i]['group']
+                for j in range(n):
+                    gj = script['procs'][j]['group']
+                    if gprio[gj] > gprio[gi] and active[gj] and cur[j] not in (0, 100, 200, 1000):
+                        return ('p%d (group priority %s) was sent into STOPPING while p%d of a group with priority %s, which '
+                                'must be stopped first, was still in state %s' % (i, gprio[gi], j, gprio[gj], cur[j]))
+            cur[i] = e[3]
     if nsup2 > 1:
         return 'SUPERVISOR_STATE_CHANGE_STOPPING announced %d times' % nsup2
     if res['ended'] == 'exit':
@@ -623,6 +648,139 @@ def hostile_stream(chk, wd):
     return n, hits
 
 
+def dynamic_script(rng, U=2):
+    """Groups added by RPC at run time, then a shutdown/restart: outside the Coq model (static group set), judged by
+    the monitors only (C05 order, exit condition, no fork after the request)."""
+    ng = rng.choice([2, 3, 3, 4])
+    prios = [rng.choice([1, 3, 5, 7, 9]) for _ in range(ng)]
+    confs, groups = [], []
+    for g in range(ng):
+        k = rng.choice([1, 1, 2])
+        idx = []
+        for _ in range(k):
+            idx.append(len(confs))
+            confs.append(mkconf(startsecs=rng.choice([0, 1]), stopwaitsecs=rng.choice([1, 2]), priority=rng.choice([1, 5]),
+                                autorestart=rng.choice([0, 1, 2]), group=g))
+        groups.append({'priority': prios[g], 'procs': idx, 'initial': 1 if g == 0 or rng.random() < 0.4 else 0})
+    t = 200
+    ops = [{'now': t, 'acts': []}]
+    req = 0
+    late = [g for g in range(ng) if not groups[g]['initial']]
+    rng.shuffle(late)
+    for g in late:
+        t += rng.choice([1, 2, 4])
+        req += 1
+        ops.append({'now': t, 'acts': [['addgroup', g, req]]})
+        t += 2
+        ops.append({'now': t, 'acts': []})
+    t += 4
+    ops.append({'now': t, 'acts': [['signal', rng.choice([15, 1, 2])]] if rng.random() < 0.7 else [['rpc', req + 1, rng.choice(['shutdown', 'restart'])]]})
+    for k in range(14):
+        t += rng.choice([1, 2, 3])
+        ops.append({'now': t, 'acts': [], 'killq': [1, 1] if rng.random() < 0.4 else []})
+    return {'U': U, 'procs': confs, 'groups': groups, 'ops': ops}
+
+
+def dynamic_stream(chk):
+    n = 400 if chk.tier == 'quick' else 5000
+    hits = 0
+    for k in range(n):
+        s = dynamic_script(chk.rng)
+        pend_exit.clear()
+        r = life_driver.run_script(s)
+        chk.dist('dynamic:' + str(r['ended']))
+        for m in (mon_c06, mon_c01, mon_c02, mon_c05):
+            msg = m(s, r)
+            if msg:
+                hits += 1
+                if hits <= 5:
+                    chk.violation({'kind': 'dynamic-group history: property monitor rejects the implementation trace',
+                                   'monitor': m.__name__, 'message': msg, 'script': s, 'implementation': jsonable_result(r)})
+    return n, hits
+
+
+SIGNAME = {15: 'TERM', 2: 'INT', 1: 'HUP', 9: 'KILL', 10: 'USR1', 3: 'QUIT', 12: 'USR2'}
+
+
+def config_tie(chk, wd):
+    """The policy options the lifecycle theorems are stated over must be what the configuration file says: parse
+    generated [program:x] sections with the REAL ServerOptions and compare every policy option (all grid values,
+    zero/false/empty included) with the configured value.  A mismatch is reported with the file text."""
+    from supervisor.options import ServerOptions
+    from supervisor import datatypes
+    rng = chk.rng
+    cases = []
+    grid = []
+    for ss in (0, 1, 2, 5):
+        for sr in (0, 1, 3):
+            grid.append(dict(startsecs=ss, startretries=sr))
+    for au in (0, 1):
+        for ar in (0, 1, 2):
+            grid.append(dict(autostart=au, autorestart=ar))
+    for ec in ([0], [0, 2], [1], [255], [2, 3, 4]):
+        grid.append(dict(exitcodes=ec))
+    for sig in sorted(SIGNAME):
+        for sw in (0, 1, 10):
+            grid.append(dict(stopsignal=sig, stopwaitsecs=sw))
+    for sa, ka in ((0, 0), (0, 1), (1, 1)):
+        grid.append(dict(stopasgroup=sa, killasgroup=ka))
+    for pr in (0, 1, 999, -1):
+        grid.append(dict(priority=pr))
+    for _ in range(60):
+        grid.append(dict(startsecs=rng.choice([0, 1, 7]), startretries=rng.choice([0, 2, 9]), autostart=rng.choice([0, 1]),
+                         autorestart=rng.choice([0, 1, 2]), exitcodes=rng.choice([[0], [3, 4]]), stopsignal=rng.choice(sorted(SIGNAME)),
+                         stopwaitsecs=rng.choice([0, 3]), priority=rng.choice([0, 5])))
+    lines = ['[supervisord]', '']
+    for k, g in enumerate(grid):
+        lines.append('[program:q%d]' % k)
+        lines.append('command=/bin/cat')
+        for key, v in sorted(g.items()):
+            if key == 'autorestart':
+                v = {0: 'false', 1: 'unexpected', 2: 'true'}[v]
+            elif key in ('autostart', 'stopasgroup', 'killasgroup'):
+                v = 'true' if v else 'false'
+            elif key == 'exitcodes':
+                v = ','.join(str(x) for x in v)
+            elif key == 'stopsignal':
+                v = SIGNAME[v]
+            lines.append('%s=%s' % (key, v))
+        lines.append('')
+    text = '\n'.join(lines)
+    path = os.path.join(wd, 'tie.conf')
+    with open(path, 'w') as f:
+        f.write(text)
+    o = ServerOptions()
+    o.configfile = path
+    try:
+        o.process_config(do_usage=False)
+    except Exception as e:
+        chk.violation({'kind': 'the real parser rejected a well-formed policy configuration', 'error': repr(e), 'file': text[:3000]})
+        return 0
+    by_name = {}
+    for gc in o.process_group_configs:
+        for pc in gc.process_configs:
+            by_name[pc.name] = pc
+    AR = {0: False, 1: datatypes.RestartWhenExitUnexpected, 2: datatypes.RestartUnconditionally}
+    bad = 0
+    for k, g in enumerate(grid):
+        pc = by_name.get('q%d' % k)
+        if pc is None:
+            chk.violation({'kind': 'configured program missing after parse', 'program': 'q%d' % k})
+            continue
+        for key, v in g.items():
+            got = getattr(pc, key)
+            want = AR[v] if key == 'autorestart' else (bool(v) if key in ('autostart', 'stopasgroup', 'killasgroup') else v)
+            if key == 'killasgroup' and g.get('stopasgroup'):
+                want = True
+            if got != want or (key != 'autorestart' and type(got) is not type(want) and not isinstance(got, int)):
+                bad += 1
+                if bad <= 3:
+                    chk.violation({'kind': 'policy option differs from the configuration file', 'program': 'q%d' % k,
+                                   'option': key, 'configured': repr(v), 'parsed': repr(got),
+                                   'section': [l for l in lines[lines.index('[program:q%d]' % k):][:14]]})
+    return len(grid)
+
+
 def first_diff_prefix(script, wd, tag):
     """Shortest prefix of the script on which model and implementation differ (binary search)."""
     ops = script['ops']
@@ -716,6 +874,12 @@ def _run(chk, which, prop_rel, proved, wd):
     if which == 'C06':
         nh, hh = hostile_stream(chk, wd)
         monitor_hits += hh
+    if which in ('C03', 'C04'):
+        nh += config_tie(chk, wd)
+    if which in ('C05', 'C02'):
+        nd, hd = dynamic_stream(chk)
+        nh += nd
+        monitor_hits += hd
     if not proved:
         chk.violation({'kind': 'proof obligation no longer checks', 'detail': chk.proof_failure, 'file': 'coq/' + prop_rel},
                       nofail=not (bad or monitor_hits))
